@@ -151,6 +151,9 @@ def run(ctx):
             continue
         if bc:
             note('noopt-body', n, s, 'original executed in replay without run_intercepted_when_missing', 'C02.a')
+        if rimw is not False:
+            note('order', n, s, 'the missing-key outcome is decided before run_intercepted_when_missing was consulted: '
+                                'documented order is fallback aliases, run original (if opted in), substitute, error', 'C02.c')
         if ek == 'return':
             vw = ('free', fac.qualname, 'value_when_missing')
             is_call = rv is not None and rv.kind == 'sym' and isinstance(rv.name, tuple) and rv.name[0] == 'call' and \
@@ -171,7 +174,7 @@ def run(ctx):
                 note('sentinel', n, s, 'missing-key error raised although a substitute may be configured: presence of '
                                        'value_when_missing is decided by truthiness, so 0 / "" / [] / {} are ignored', 'C02.d')
     cc.evaluations += d.visited_pairs
-    for key in ('keyfail', 'rimw-body', 'rimw-rv', 'sub-none', 'miss-exc'):
+    for key in ('keyfail', 'rimw-body', 'rimw-rv', 'order', 'sub-none', 'miss-exc'):
         cc.instance('input replay: %s' % key, cl.qualname, ('C02.c', key) not in viol, detail='%d cells' % len(cells))
     cd.instance('input replay: substitute presence by identity with None', cl.qualname, ('C02.d', 'sentinel') not in viol)
     cd.evaluations += len(cells)
